@@ -6,6 +6,8 @@
 use super::*;
 use crate::utils::__vp_utils::spec_l_step;
 use bcref::kuznyechik as kz;
+use crate::__vp_lemmas::ruf;
+use crate::utils::__vp_utils::CREF;
 use cipher::Array;
 
 pub fn any_block() -> Block { Array(kani::any()) }
@@ -38,10 +40,11 @@ fn c_x() {
     assert!(kz::eq(&a.0, &kz::x(&b.0, &a0)));
 }
 
-// @ob name=c_lsx cfg=compact props=C07,C20 fn=kuznyechik::compact_soft::backends::lsx uses=c_l_step timeout=600
+// @ob name=c_lsx cfg=compact props=C07,C20 fn=kuznyechik::compact_soft::backends::lsx uses=c_l_step,c_ell_tables timeout=600
 #[kani::proof]
 #[kani::stub(crate::utils::l_step, spec_l_step)]
-#[kani::unwind(17)]
+#[kani::stub(bcref::kuznyechik::ell, ruf::ell)]
+#[kani::unwind(151)]
 fn c_lsx() {
     let mut b = any_block();
     let k = any_block();
@@ -50,10 +53,11 @@ fn c_lsx() {
     assert!(kz::eq(&b.0, &kz::lsx(&k.0, &b0)));
 }
 
-// @ob name=c_lsx_inv cfg=compact props=C07,C20 fn=kuznyechik::compact_soft::backends::lsx_inv uses=c_l_step timeout=600
+// @ob name=c_lsx_inv cfg=compact props=C07,C20 fn=kuznyechik::compact_soft::backends::lsx_inv uses=c_l_step,c_ell_tables timeout=600
 #[kani::proof]
 #[kani::stub(crate::utils::l_step, spec_l_step)]
-#[kani::unwind(17)]
+#[kani::stub(bcref::kuznyechik::ell, ruf::ell)]
+#[kani::unwind(151)]
 fn c_lsx_inv() {
     let mut b = any_block();
     let k = any_block();
@@ -62,16 +66,17 @@ fn c_lsx_inv() {
     assert!(kz::eq(&b.0, &kz::x_linv_sinv(&k.0, &b0)));
 }
 
-// @ob name=c_get_c cfg=compact props=C07,C20 kind=exhaustive fn=kuznyechik::compact_soft::backends::get_c timeout=600
+// @ob name=c_get_c cfg=compact props=C07,C20 kind=exhaustive fn=kuznyechik::compact_soft::backends::get_c uses=c_keygen timeout=300
 #[kani::proof]
 #[kani::unwind(33)]
 fn c_get_c() {
     let mut n = 0;
     while n < 32 {
-        assert!(kz::eq(&get_c(n).0, &kz::c(n + 1)));
+        assert!(kz::eq(&get_c(n).0, &CREF[n]));
         n += 1;
     }
 }
+pub fn spec_get_c(n: usize) -> Block { Array(kz::c(n + 1)) }
 
 /// contract of f(k1, k2, n): eight applications of F with C_{8n+1} .. C_{8n+8} on the pair (a1, a0) = (k1, k2)
 pub fn spec_f(k1: &mut Block, k2: &mut Block, n: usize) {
@@ -90,7 +95,10 @@ pub fn spec_f(k1: &mut Block, k2: &mut Block, n: usize) {
 // @ob name=c_f cfg=compact props=C07,C20 fn=kuznyechik::compact_soft::backends::f uses=c_lsx,c_get_c timeout=900
 #[kani::proof]
 #[kani::stub(lsx, spec_lsx)]
-#[kani::unwind(17)]
+#[kani::stub(get_c, spec_get_c)]
+#[kani::stub(bcref::kuznyechik::lsx, ruf::lsx)]
+#[kani::stub(bcref::kuznyechik::c, ruf::c)]
+#[kani::unwind(151)]
 fn c_f() {
     let mut n = 0;
     while n < 4 {
@@ -106,7 +114,9 @@ fn c_f() {
 // @ob name=c_expand cfg=compact props=C07,C20 fn=kuznyechik::compact_soft::backends::expand uses=c_f timeout=900
 #[kani::proof]
 #[kani::stub(f, spec_f)]
-#[kani::unwind(33)]
+#[kani::stub(bcref::kuznyechik::lsx, ruf::lsx)]
+#[kani::stub(bcref::kuznyechik::c, ruf::c)]
+#[kani::unwind(151)]
 fn c_expand() {
     let key: [u8; 32] = kani::any();
     let rk = expand(&Array(key));
@@ -135,7 +145,8 @@ pub fn dec_block(rk: &RoundKeys, b: [u8; 16]) -> [u8; 16] {
 // @ob name=c_enc_block cfg=compact props=C07,C20 fn=kuznyechik::compact_soft::backends::EncBackend::encrypt_block uses=c_lsx,c_x timeout=900
 #[kani::proof]
 #[kani::stub(lsx, spec_lsx)]
-#[kani::unwind(17)]
+#[kani::stub(bcref::kuznyechik::lsx, ruf::lsx)]
+#[kani::unwind(151)]
 fn c_enc_block() {
     let rk = any_round_keys();
     let b: [u8; 16] = kani::any();
@@ -145,9 +156,19 @@ fn c_enc_block() {
 // @ob name=c_dec_block cfg=compact props=C07,C20 fn=kuznyechik::compact_soft::backends::DecBackend::decrypt_block uses=c_lsx_inv,c_x timeout=900
 #[kani::proof]
 #[kani::stub(lsx_inv, spec_lsx_inv)]
-#[kani::unwind(17)]
+#[kani::stub(bcref::kuznyechik::x_linv_sinv, ruf::x_linv_sinv)]
+#[kani::unwind(151)]
 fn c_dec_block() {
     let rk = any_round_keys();
     let b: [u8; 16] = kani::any();
     assert!(kz::eq(&dec_block(&rk, b), &kz::decrypt_with(&raw_keys(&rk), &b)));
 }
+
+// ---- uninterpreted stand-ins with the real signatures, for the plumbing obligations in api_compact.rs
+include!("@VERIF@/contracts/kuznyechik/uf_common.inc");
+pub fn uf_expand(key: &Key) -> RoundKeys {
+    let raw: [[u8; 16]; 10] = unsafe { core::mem::transmute(ufs::k2rk(&key.0)) };
+    raw.map(Array)
+}
+pub fn uf_lsx(block: &mut Block, key: &Block) { block.0 = ufs::blk(&block.0, &key.0, 1); }
+pub fn uf_lsx_inv(block: &mut Block, key: &Block) { block.0 = ufs::blk(&block.0, &key.0, 2); }
